@@ -58,14 +58,17 @@ type rec struct {
 
 // A Runner drives one real manager over a world and records what it sees.
 type Runner struct {
-	W             *World
-	Sim           *mgrsim.Sim
-	CM            *chain.Manager
-	Tip           *chaingen.Node
-	Start         *chaingen.Node
-	Known         map[*chaingen.Node]bool // nodes whose blocks the manager stored
-	Applied       map[*chaingen.Node]bool // nodes that were on the best chain at some time (full state, supplement)
-	pendUpd       []updRec
+	W       *World
+	Sim     *mgrsim.Sim
+	CM      *chain.Manager
+	Tip     *chaingen.Node
+	Start   *chaingen.Node
+	Known   map[*chaingen.Node]bool // nodes whose blocks the manager stored
+	Applied map[*chaingen.Node]bool // nodes that were on the best chain at some time (full state, supplement)
+	pendUpd []updRec
+	// DeferNext: the next recorded call does not read the pool; the call after it is made first
+	DeferNext     bool
+	deferred      []rec
 	lastRev       *chaingen.Node
 	minedFromPool map[*chaingen.Node]bool           // blocks mined from the pool by coreutils.MineBlock and adopted
 	elemNode      map[*chaingen.Node]*chaingen.Node // whose element accumulator the stored state of a block carries
@@ -131,6 +134,14 @@ func (r *Runner) Pool() (v1 []types.Transaction, v2 []types.V2Transaction) {
 }
 
 func (r *Runner) observe(rc *rec) {
+	if r.DeferNext {
+		// the pool is not read now: the next call on the manager comes first, and what is read after
+		// it also serves as this call's observation (a read never changes what the pool reports)
+		r.DeferNext = false
+		c := *rc
+		r.deferred = append(r.deferred, c)
+		return
+	}
 	v1, v2 := r.Pool()
 	for _, t := range v1 {
 		rc.ObsV1 = append(rc.ObsV1, t.ID())
@@ -138,7 +149,32 @@ func (r *Runner) observe(rc *rec) {
 	for _, t := range v2 {
 		rc.ObsV2 = append(rc.ObsV2, r.W.AbsV2(t, r.meta(t.ID(), Meta{POK: true})))
 	}
+	for _, d := range r.deferred {
+		d.ObsV1, d.ObsV2 = rc.ObsV1, rc.ObsV2
+		r.recs = append(r.recs, d)
+	}
+	r.deferred = nil
 	r.recs = append(r.recs, *rc)
+}
+
+// AssembleBlock builds a block on node n from the given transactions (all of them must fit).
+func AssembleBlock(n *chaingen.Node, v1 []types.Transaction, v2 []types.V2Transaction) types.Block {
+	cs := n.FullState
+	b := types.Block{ParentID: cs.Index.ID, Timestamp: types.CurrentTimestamp(), MinerPayouts: []types.SiacoinOutput{{Value: cs.BlockReward(), Address: types.VoidAddress}}}
+	for _, t := range v1 {
+		b.Transactions = append(b.Transactions, t)
+		b.MinerPayouts[0].Value = b.MinerPayouts[0].Value.Add(t.TotalFees())
+	}
+	if cs.Index.Height+1 >= cs.Network.HardforkV2.AllowHeight {
+		b.V2 = &types.V2BlockData{Height: cs.Index.Height + 1}
+		for _, t := range v2 {
+			b.V2.Transactions = append(b.V2.Transactions, t)
+			b.MinerPayouts[0].Value = b.MinerPayouts[0].Value.Add(t.MinerFee)
+		}
+		b.V2.Commitment = cs.Commitment(types.VoidAddress, b.Transactions, b.V2Transactions())
+	}
+	chaingen.FindNonce(cs, &b)
+	return b
 }
 
 // Chain performs a block submission; the tip may move.
@@ -540,6 +576,10 @@ func (r *Runner) LastObs() ([]types.TransactionID, []ATx) {
 
 // CoqCase renders the recorded history.
 func (r *Runner) CoqCase() string {
+	if len(r.deferred) > 0 {
+		rc := rec{Op: "query", Res: Res{Kind: "none"}}
+		r.observe(&rc)
+	}
 	nm := NewNames()
 	// pass one: name transactions and the elements they mention, in order of appearance
 	for _, rc := range r.recs {
